@@ -614,7 +614,7 @@ def plan(ctx):
                             [j(8, 24) * MiB, 0, j(100, 900) * KiB, -7000, 64 * KiB, 64 * KiB + 1] +
                             [1 << j(3, 20) for _ in range(10)], "samefs"))
         scs.append(Scenario("config-a", "config", "trace",
-                            [0, j(1, 5000), 16 * MiB, 0, j(1, 3) * MiB] + [j(0, 2) * j(1, 300000) for _ in range(15)],
+                            [0, j(1, 5000), 32 * MiB, 0, j(1, 3) * MiB] + [j(0, 2) * j(1, 300000) for _ in range(15)],
                             "otherfs"))
         scs.append(Scenario("config-b", "config", "trace",
                             [j(4, 10) * MiB] + [1 << j(3, 20) for _ in range(9)], "samefs"))
@@ -622,11 +622,12 @@ def plan(ctx):
             scs.append(Scenario("config-up%d" % i, "config-upgrade", "trace", [j(0, 2 + 6 * i) * MiB + j(0, 5000)], t))
             scs.append(Scenario("leases-mig%d" % i, "leases-migrate", "trace", [j(0, 1 + 3 * i) * MiB + j(0, 5000)], t))
         scs.append(Scenario("leases-a", "leases", "trace",
-                            [8 * MiB] + [rng.choice([1, 1, 1, -2]) for _ in range(12)] + [0] +
+                            [32 * MiB] + [rng.choice([1, 1, 1, -2]) for _ in range(12)] + [0] +
                             [rng.choice([1, 1, -2]) for _ in range(8)], "otherfs"))
         scs.append(Scenario("leases-b", "leases", "trace",
                             [-1] + [rng.choice([1, 1, 1, -2, 0]) for _ in range(20)], "samefs"))
         scs.append(Scenario("leases-c", "leases", "trace", [j(1, 3) * MiB, 1, 0, 1, 1], "samefs"))
+        scs.append(Scenario("filter-c", "filter", "trace", [32 * MiB, j(1, 16) * MiB, -32 * MiB, 33 * MiB, 0, 1], "samefs"))
         npoll = 400
     scs.append(Scenario("poll-filter", "filter", "poll",
                         [j(20, 300000) * (-1 if i % 9 == 5 else 1) for i in range(npoll)], "otherfs"))
@@ -638,8 +639,8 @@ def plan(ctx):
 # ---------------------------------------------------------------------- run
 def model_check(ctx):
     demo = {}
-    for i, c in enumerate(POS_CFGS):
-        r = ctx.tlc("AtomicFile", "AtomicFile.%s.cfg" % c, workers=4, timeout=600, coverage=(i == 0))
+    for i, c in enumerate(POS_CFGS + ([] if ctx.quick else ["mcbig"])):
+        r = ctx.tlc("AtomicFile", "AtomicFile.%s.cfg" % c, workers=4, timeout=900, coverage=(i == 0))
         if i == 0:
             taken = dict((m.group(1), int(m.group(2))) for m in
                          re.finditer(r"^<(\w+) line \d+, col \d+ to line \d+, col \d+ of module AtomicFile>: (\d+):\d+", r["out"], re.M))
@@ -696,7 +697,7 @@ def run(ctx):
     # scenario that was accepted is corrupted in five ways; every corrupted
     # copy must be rejected.
     base, muts = None, {}
-    for sc in scs:
+    for sc in sorted(scs, key=lambda x: len(x.events)):
         if sc.mode == "trace" and not res[sc.name] and not sc.info["ineffective"]:
             muts = mutants(sc)
             if len(muts) >= 5:
@@ -724,6 +725,7 @@ def run(ctx):
     # Disagreements: reproduce each one by running its scenario again, alone.
     saves = reads = 0
     nontrivial = set()
+    unclear = []   # reasons for "inconclusive", raised only if nothing was reproduced
     for sc in scs:
         saves += sum(1 for e in sc.events if e["ev"] == "begin")
         reads += sum(1 for e in sc.events if e["ev"] == "rend")
@@ -741,7 +743,8 @@ def run(ctx):
             pat = pattern(sc, i, inv)
             same = [(i2, inv2) for i2, inv2 in ares[again.name] if inv2 == inv and pattern(again, i2, inv2) == pat]
             if not same:
-                raise vlib.Inconclusive("violation %s/%s in scenario %s was not reproduced" % (inv, pat, sc.name))
+                unclear.append("violation %s/%s in scenario %s was not reproduced" % (inv, pat, sc.name))
+                continue
             i2, _ = same[0]
             rec = record(again, i2, inv)
             rec["all_violations"] = [{"event_index": a, "invariant": b, "pattern": pattern(again, a, b)}
@@ -757,8 +760,14 @@ def run(ctx):
                                  "destination's file system); the new version is never installed" % sc.writer)
             else:
                 rows = [r for r in sc.rows if r.get("ev") == "end" and r["id"] in bad_save][:3]
-                raise vlib.Inconclusive("scenario %s: saves %s did not install the new version (%s)" % (
+                unclear.append("scenario %s: saves %s did not install the new version (%s)" % (
                     sc.name, bad_save[:5], json.dumps(rows)[:600]))
+    if unclear and not ctx.violations and not ctx.known_hits:
+        raise vlib.Inconclusive("; ".join(unclear[:4]))
+    if unclear:
+        cov_unclear = unclear[:10]
+    else:
+        cov_unclear = []
 
     tr = [sc for sc in scs if sc.mode == "trace"]
     if saves == 0 or reads == 0 or not tr:
@@ -784,7 +793,7 @@ def run(ctx):
                            sizes=sc.sizes if len(sc.sizes) <= 30 else
                            {"count": len(sc.sizes), "min": min(sc.sizes), "max": max(sc.sizes), "first": sc.sizes[:8]})
                       for sc in scs],
-        "binding_demo": demo,
+        "binding_demo": demo, "unclear": cov_unclear,
         "exhaustive": False,
         "samples": samples,
     }
